@@ -296,3 +296,24 @@ pub fn debug2(path: &str) -> i32 {
     }
     0
 }
+
+pub fn debug3(path: &str) -> i32 {
+    let v: serde_json::Value = serde_json::from_str(&std::fs::read_to_string(path).unwrap()).unwrap();
+    let r = &v["detail"]["robot"];
+    let f = |k: &str| r[k].as_f64().unwrap();
+    let arr6 = |k: &str| -> [f64; 6] { std::array::from_fn(|i| r[k][i].as_f64().unwrap()) };
+    let rp = RParams { a1: f("a1"), a2: f("a2"), b: f("b"), c1: f("c1"), c2: f("c2"), c3: f("c3"), c4: f("c4"), offsets: arr6("offsets"), signs: arr6("signs").map(|x| x as i8), dof: r["dof"].as_i64().unwrap() as i8 };
+    let q: [f64; 6] = std::array::from_fn(|i| v["detail"]["q"][i].as_f64().unwrap());
+    println!("measures {:?}", sing_measures(&rp, &q));
+    let fr = chain(&rp, &q);
+    let wc = fr[4].p;
+    println!("wc {:?} rxy^2-b^2 = {:e}", wc, wc[0] * wc[0] + wc[1] * wc[1] - rp.b * rp.b);
+    let kin = OPWKinematics::new(to_params(&rp));
+    let pose = fr_to_iso(&fk(&rp, &q));
+    println!("inverse_5dof -> {} solutions; inverse -> {}", kin.inverse_5dof(&pose, 0.0).len(), kin.inverse(&pose).len());
+    let mut rp6 = rp;
+    rp6.dof = 6;
+    rp6.signs[5] = 1;
+    println!("same robot as dof 6: inverse -> {}", OPWKinematics::new(to_params(&rp6)).inverse(&pose).len());
+    0
+}
